@@ -1176,6 +1176,20 @@ class LCA_SqliteDatabase(SqliteIndex):
         # the lca_db protocol works tho.
         self.scaled = scaled
 
+    @property
+    def _max_hash(self):
+        "The largest hash value the sketches hold at the current scaled."
+        return MinHash(n=0, ksize=self.ksize, scaled=self.scaled)._max_hash
+
+    def signatures_with_location(self):
+        "Return the signatures, downsampled if downsample_scaled was called."
+        for ss, loc in super().signatures_with_location():
+            if ss.minhash.scaled < self.scaled:
+                mh = ss.minhash.downsample(scaled=self.scaled)
+                ss = SourmashSignature(mh, name=ss.name, filename=ss.filename)
+                ss.into_frozen()
+            yield ss, loc
+
     def get_lineage_assignments(self, hashval, *, min_num=None):
         """
         Get a list of lineages for this hashval.
@@ -1231,12 +1245,17 @@ class _SqliteIndexHashvalToIndex:
         "Get all hashvals."
         c = self.sqlidx.conn.cursor()
         c.execute("SELECT DISTINCT hashval FROM sourmash_hashes")
+        max_hash = self.sqlidx._max_hash
         for (hashval,) in c:
-            yield convert_hash_from(hashval)
+            hashval = convert_hash_from(hashval)
+            if hashval <= max_hash:
+                yield hashval
 
     def get(self, key, dv=None):
         "Retrieve idxlist for a given hash."
         sqlidx = self.sqlidx
+        if key > sqlidx._max_hash:  # not in the sketches at the current scaled
+            return dv
         c = sqlidx.cursor()
 
         hh = convert_hash_to(key)
